@@ -87,3 +87,42 @@ Proof.
                   str_ltb_irrefl str_ltb_trans str_ltb_total (map to_call prog) OK (init_v vinit) (init_c cinit) SO sched D Hu P id) as CV.
     rewrite Ero in CV. simpl in CV. rewrite INC in CV. exact CV.
 Qed.
+
+(* ---------- the updates-only clause of cview_ok: right at every id the stream mentions ---------- *)
+(* without an include predicate every forwarded change carries the id of one of the events *)
+Lemma forward_ids (ro : ropts fmsg (list fld)) : ro_include ro = None ->
+  forall evs id, In id (map (@cc_id fmsg) (c_forward_gen fr_filter None false false ro evs)) -> In id (map (@ce_id fmsg) evs).
+Proof.
+  intros INC. induction evs as [|e r IH]; simpl; intros id H; [exact H|].
+  rewrite INC in H. simpl in H. destruct H as [H|H]; [left; exact H|right; apply IH, H].
+Qed.
+
+Theorem judge_collection_uo_oracle_sound (i : option idf) (prog : list fcall) (sched : list nat) vinit cinit
+        (u : csub fmsg (list fld)) (ro : fro) obs fc :
+  (forall t c, nth_error (map to_call prog) t = Some c -> call_ok (idfun_of i) c) ->
+  ImplProofs.sorted str_ltb (c_items (init_c cinit)) ->
+  let s := f_run false i prog sched vinit cinit in
+  all_done s = true -> In u (st_csubs s) -> cs_ro u = to_ropts ro ->
+  r_updates_only ro = true -> r_include ro = None ->
+  list_match cc_matches (cstream_of u) obs = true ->
+  list_eqb kv_eqb (final_list (w_c (st_w s))) fc = true ->
+  cview_ok ro obs fc = true.
+Proof.
+  intros OK SO s D Hu Ero UO INC LM EF.
+  unfold cview_ok. rewrite UO. apply kv_list_eqb_eq in EF. subst fc.
+  assert (IDS : ids_of obs = map (@cc_id fmsg) (cstream_of u)).
+  { rewrite <- (list_match_to_cc _ _ LM). unfold ids_of. rewrite map_map. reflexivity. }
+  rewrite (list_match_to_cc _ _ LM).
+  unfold final_list. rewrite map_mask_c_list.
+  assert (P : uo_sub u) by (unfold uo_sub; rewrite Ero; simpl; rewrite INC; split; [reflexivity|exact UO]).
+  apply forallb_forall. intros id Hid. rewrite IDS in Hid.
+  rewrite !view_lookup_is.
+  assert (T : touched u id).
+  { unfold touched. apply (forward_ids (cs_ro u)); [rewrite Ero; simpl; rewrite INC; reflexivity|].
+    unfold cstream_of, pull_collection, pull_collection_gen in Hid. rewrite Ero in Hid. simpl in Hid. rewrite UO in Hid.
+    simpl in Hid. rewrite Ero. exact Hid. }
+  pose proof (converges_collection_updates_only fmsg_eqb fzero fw_validate fw_merge fr_filter fclock str_ltb (idfun_of i) fmsg_eqb_eq
+                str_ltb_irrefl str_ltb_trans str_ltb_total (map to_call prog) OK (init_v vinit) (init_c cinit) SO sched D Hu P id T) as CV.
+  rewrite Ero in CV. simpl in CV.
+  change (fold_view (cstream_of u)) with (cview fr_filter u). rewrite CV. apply ofm_eqb_same.
+Qed.
